@@ -491,8 +491,7 @@ func (g *generator) walkEnum(schema *schemaparser.Schema) (ast.Type, error) {
 		}
 
 		// members are all strings, or all integers: nothing else can be declared as an enum
-		memberValue := unwrapJSONNumber(enumValue)
-		switch memberValue.(type) {
+		switch unwrapJSONNumber(enumValue).(type) {
 		case string:
 			if !enumType.IsScalar() || enumType.AsScalar().ScalarKind != ast.KindString {
 				return ast.Type{}, fmt.Errorf("enum members must be all strings or all integers: '%v' is a string", enumValue)
@@ -508,7 +507,7 @@ func (g *generator) walkEnum(schema *schemaparser.Schema) (ast.Type, error) {
 		values = append(values, ast.EnumValue{
 			Type:  enumType,
 			Name:  fmt.Sprintf("%v", enumValue),
-			Value: memberValue,
+			Value: unwrapJSONNumber(enumValue),
 		})
 	}
 	if len(values) == 0 {
